@@ -472,7 +472,10 @@ def one(ctx: Any, sc: dict[str, Any]) -> None:
     ctx.case(repr(sc), nontrivial=sc["cut_at"] is not None and sc["cut_at"] < total)
     coro = run_client_level(sc) if sc["level"] == "client" else run_reconnect_api(sc) if sc["level"] == "reconnect-api" else run_transport_level(sc)
     try:
-        out = vtime.run(coro, horizon=HORIZON)
+        out = vtime.run(coro, horizon=HORIZON, cpu_limit=45.0)
+    except vtime.Spinning:
+        ctx.violation(f"{sc['transport']}/{sc['level']}/spins-without-yielding/{sc['kind']}", "the operation burns CPU without ever reaching a suspension point after the connection was cut (no timeout of the caller can end it)", {"scenario": sc})
+        return
     except vtime.Unbounded:
         ctx.violation(f"{sc['transport']}/{sc['level']}/unbounded/{sc['kind']}/{'peer-gone-for-good' if sc.get('restart_at', 0) > HORIZON else 'peer-back'}",
                       f"the operation was still running after {HORIZON:.0f} virtual seconds", {"scenario": sc})
